@@ -1,15 +1,150 @@
-(* Props/C13.v — dual and vertex-truncated lattices.  Only the property theorems; proofs are in
-   Proofs/DualFacts.v, Proofs/TruncateFacts.v; models in Model/Dual.v, Model/Truncate.v. *)
-From Coq Require Import List ZArith Bool Arith QArith.
-From Koala Require Import Model.Lattice Model.Dual Proofs.DualFacts.
-Import ListNotations.
-Open Scope Q_scope.
+(* Props/C13.v — dual and vertex-truncated lattices have the combinatorics that define them.
+   Only the property theorems; proofs in Proofs/DualFacts.v, Proofs/TruncateFacts.v; models in
+   Model/Dual.v (make_dual over Q) and Model/Truncate.v (vertices_to_polygon, statement by statement, in
+   integer units of 1/(3*scale): the output lattice has scale 3*scale L).
 
+   NOT covered by a theorem (checked on the implementation by harness/c13.py only): the dual plaquette
+   census on closed lattices with crossing-free dual drawing; "the new polygon as an extra plaquette and
+   every old plaquette enlarged by one side per truncated corner" (truncate_faces); "corners have degree 3,
+   degrees unchanged elsewhere" (follows from the closed form trunc_spec but is not stated here);
+   plot_dual == make_dual; the half-cell precondition itself is evaluated per input by the harness. *)
+From Coq Require Import List ZArith Bool Arith QArith.
+From Koala Require Import Model.Lattice Model.Dual Model.Truncate Proofs.DualFacts Proofs.TruncateFacts.
+Import ListNotations.
+
+(* ------------------------------------------------------------------ dual *)
 (* core of "edge vector equal to the true centre-to-centre displacement": with the crossing computed by
    round-half-even of the position difference, any displacement t congruent to pb - pa modulo the integers
-   with |t| < 1/2 is recovered exactly. *)
+   with |t| < 1/2 is recovered exactly (half-even ties are excluded by the strict bound) *)
 Theorem C13_round_recovers_displacement : forall (pa pb t : Q) (m : Z),
-  pb - pa == t + inject_Z m -> -(1 # 2) < t -> t < 1 # 2 ->
-  pb - pa + inject_Z (qround_half_even (pa - pb)) == t.
+  (pb - pa == t + inject_Z m -> -(1 # 2) < t -> t < 1 # 2 ->
+   pb - pa + inject_Z (qround_half_even (pa - pb)) == t)%Q.
 Proof. exact round_recovers_displacement. Qed.
 Print Assumptions C13_round_recovers_displacement.
+
+(* clause "the dual has one vertex per plaquette at its centre (mod 1), one edge per edge that has a
+   plaquette on both sides, joining those two plaquettes in edge order": whenever make_dual returns a
+   lattice D (no LatticeException, duplicate-edge guard silent): one dual vertex per plaquette, at centre
+   mod 1, inside [0,1)^2; the dual edge list is the list of two-sided edges of L in edge order
+   (two_sided = ascending edge indices whose row of edges.adjacent_plaquettes has no INVALID), dual edge i
+   = (a, b) where the dart (e,+1) of the i-th two-sided edge e lies on plaquette a and the dart (e,-1) on
+   plaquette b; its crossing is round-half-even(pos[a] - pos[b]) *)
+Theorem C13_dual_vertices_edges : forall (L : lattice) (D : qlattice), make_dual L = DualOk D ->
+  exists ps, find_all_plaquettes L = Some ps /\
+    length (qpos D) = length ps /\
+    (forall n, (n < length ps)%nat ->
+       nth n (qpos D) qvzero = qmod1v (centre L (nth n ps no_plaquette)) /\
+       (0 <= fst (nth n (qpos D) qvzero) /\ fst (nth n (qpos D) qvzero) < 1)%Q /\
+       (0 <= snd (nth n (qpos D) qvzero) /\ snd (nth n (qpos D) qvzero) < 1)%Q) /\
+    let ep := edges_plaquettes L ps in
+    qedges D = map (fun e => sides_of (nth e ep (None, None))) (two_sided ep) /\
+    length (qcrossing D) = length (qedges D) /\
+    (forall i, (i < length (qedges D))%nat ->
+       let e := nth i (two_sided ep) 0%nat in
+       let ab := nth i (qedges D) (0, 0)%nat in
+       (fst ab < length ps)%nat /\ (snd ab < length ps)%nat /\
+       In (e, true) (darts_of (nth (fst ab) ps no_plaquette)) /\
+       In (e, false) (darts_of (nth (snd ab) ps no_plaquette)) /\
+       nth i (qcrossing D) vzero = dual_crossing_of (qpos D) ab).
+Proof. exact dual_vertices_edges. Qed.
+Print Assumptions C13_dual_vertices_edges.
+
+(* clause "with edge vector equal to the true centre-to-centre displacement" under the half-cell
+   condition: for every dual edge i = (a, b) and every t congruent to centre(b) - centre(a) modulo the
+   integer lattice (the displacement obtained by unwrapping both plaquettes through the shared edge is
+   such a t, since two unwrappings of a plaquette differ by an integer vector) with |t_x|, |t_y| < 1/2:
+   pos[b] - pos[a] + crossing = t, exactly, over Q *)
+Theorem C13_dual_vector_true : forall (L : lattice) (D : qlattice) (ps : list plaquette) (i : nat)
+    (t : qvec) (m : Z * Z),
+  make_dual L = DualOk D -> find_all_plaquettes L = Some ps -> (i < length (qedges D))%nat ->
+  let ab := nth i (qedges D) (0, 0)%nat in
+  let ca := centre L (nth (fst ab) ps no_plaquette) in
+  let cb := centre L (nth (snd ab) ps no_plaquette) in
+  (fst cb - fst ca == fst t + inject_Z (fst m))%Q -> (snd cb - snd ca == snd t + inject_Z (snd m))%Q ->
+  (-(1 # 2) < fst t)%Q -> (fst t < 1 # 2)%Q -> (-(1 # 2) < snd t)%Q -> (snd t < 1 # 2)%Q ->
+  (fst (qevec D i) == fst t)%Q /\ (snd (qevec D i) == snd t)%Q.
+Proof. exact dual_vector_true. Qed.
+Print Assumptions C13_dual_vector_true.
+
+(* ------------------------------------------------------------------ truncation *)
+(* the whole function in closed form: on every well-formed lattice without self-loops and for every
+   selection (None = all vertices, Some l = the listed ones; a scalar argument is the one-element list)
+   vertices_to_polygon never raises and returns trunc_spec L vs (defined in Proofs/TruncateFacts.v:
+   positions block by block, original edges renumbered by newidx, polygon edge blocks, crossings) *)
+Theorem C13_vertices_to_polygon_spec : forall (L : lattice) (vs : option (list nat)),
+  wf_lattice L = true /\ no_self_loops L = true -> vertices_to_polygon L vs = Some (trunc_spec L vs).
+Proof. exact vertices_to_polygon_spec. Qed.
+Print Assumptions C13_vertices_to_polygon_spec.
+
+(* clause "the result has d-1 more vertices and d more edges per truncated vertex, all new corners inside
+   [0,1), ... with the original edges keeping their indices" (is_truncated v = selected and degree > 2;
+   sumdeg n / ntrunc n = sum of degrees / number of truncated vertices below n; base_index v = new index of
+   v or of its first corner): V' + #truncated = V + sum of d, E' = E + sum of d, scale' = 3*scale; corner u
+   of truncated v sits at new index base_index v + u, at (3*pos[v] + outward vector) mod 3*scale, both
+   coordinates in [0, 3*scale) i.e. real coordinates in [0,1); untouched vertices keep their position *)
+Theorem C13_truncate_counts : forall (L : lattice) (vs : option (list nat)),
+  wf_lattice L = true -> no_self_loops L = true ->
+  let st := final_state L vs in
+  let N := base_index L vs (nV L) in
+  let D := sumdeg L vs (nV L) in
+  t_total st = N /\ length (t_positions st) = N /\
+  (N + ntrunc L vs (nV L) = nV L + D)%nat /\
+  length (t_aedges st) = D /\ length (t_across st) = D /\
+  length (t_oedges st) = nE L /\ length (t_ocross st) = nE L /\
+  exists L', vertices_to_polygon L vs = Some L' /\
+    nE L' = (nE L + D)%nat /\ length (crossing L') = (nE L + D)%nat /\ nV L' = N /\ (scale L' = 3 * scale L)%Z /\
+    (forall v u, (v < nV L)%nat -> is_truncated L vs v = true -> (u < length (sorted_adj L v))%nat ->
+       let p := nth (base_index L vs v + u) (pos L') vzero in
+       p = vmod (3 * scale L) (vadd (vscale 3 (pos_at L v)) (outvec L v (nth u (sorted_adj L v) 0%nat))) /\
+       (0 <= fst p < 3 * scale L)%Z /\ (0 <= snd p < 3 * scale L)%Z) /\
+    (forall v, (v < nV L)%nat -> is_truncated L vs v = false ->
+       pos_at L' (base_index L vs v) = vscale 3 (pos_at L v)).
+Proof. exact truncate_counts. Qed.
+Print Assumptions C13_truncate_counts.
+
+(* "the original edges keeping their indices" (trunc_spec is the result by C13_vertices_to_polygon_spec): row e of the output joins the new indices of the two ends
+   of old edge e (newidx w e = base_index w, plus the position of e in the clockwise list of w when w is
+   truncated, i.e. the corner of w on this edge) *)
+Theorem C13_truncate_original_edges : forall (L : lattice) (vs : option (list nat)) (e : nat),
+  (e < nE L)%nat ->
+  edge_at (trunc_spec L vs) e = (newidx L vs (fst (edge_at L e)) e, newidx L vs (snd (edge_at L e)) e).
+Proof. exact edge_at_spec_orig. Qed.
+Print Assumptions C13_truncate_original_edges.
+
+(* the identities that certify ALL the crossing bookkeeping, for every position of the corners relative to
+   the cell boundary (units of 1/(3*scale)): an original edge with k truncated ends has vector
+   (3 - k) * old vector, i.e. (1 - k/3) * vector; the polygon edge with index E + sumdeg v + u joins corner u
+   to corner (u+1) mod d of v (clockwise, the order of vertices.adjacent_edges) and its vector is
+   w_{u+1} - w_u, i.e. (w_{u+1} - w_u)/3, with w the outward vectors at v *)
+Theorem C13_truncate_vectors : forall (L : lattice) (vs : option (list nat)),
+  wf_lattice L = true -> no_self_loops L = true ->
+  exists L', vertices_to_polygon L vs = Some L' /\
+    (forall e, (e < nE L)%nat ->
+       evec L' e =
+       vscale (3 - Z.of_nat ((if is_truncated L vs (fst (edge_at L e)) then 1 else 0) +
+                             (if is_truncated L vs (snd (edge_at L e)) then 1 else 0)))
+              (evec L e)) /\
+    (forall v u, (v < nV L)%nat -> is_truncated L vs v = true -> (u < length (sorted_adj L v))%nat ->
+       let d := length (sorted_adj L v) in
+       let i := (nE L + sumdeg L vs v + u)%nat in
+       edge_at L' i = (base_index L vs v + u, base_index L vs v + Nat.modulo (u + 1) d)%nat /\
+       evec L' i = vsub (outvec L v (nth (Nat.modulo (u + 1) d) (sorted_adj L v) 0%nat))
+                        (outvec L v (nth u (sorted_adj L v) 0%nat))).
+Proof. exact truncate_vectors. Qed.
+Print Assumptions C13_truncate_vectors.
+
+(* ------------------------------------------------------------------ non-vacuity *)
+(* the 2x2 square lattice (4 vertices of degree 4 on the torus, all edges crossing-free or wrapping):
+   well-formed, no self-loops; truncating everything gives 16 vertices and 24 edges, and a corner that
+   falls across the cell boundary (a polygon edge with non-zero crossing) exists *)
+Definition C13_square2 : lattice :=
+  mkLattice 4 [(0, 0); (0, 2); (2, 0); (2, 2)]%Z
+            [(0, 2); (0, 1); (1, 3); (1, 0); (2, 0); (2, 3); (3, 1); (3, 2)]%nat
+            [(0, 0); (0, 0); (0, 0); (0, 1); (1, 0); (0, 0); (1, 0); (0, 1)]%Z.
+Example C13_truncate_nonvacuous :
+  wf_lattice C13_square2 = true /\ no_self_loops C13_square2 = true /\
+  option_map nV (vertices_to_polygon C13_square2 None) = Some 16%nat /\
+  option_map nE (vertices_to_polygon C13_square2 None) = Some 24%nat /\
+  option_map (fun L' => existsb (fun c => negb (Z.eqb (fst c) 0) || negb (Z.eqb (snd c) 0)) (skipn 8 (crossing L')))
+             (vertices_to_polygon C13_square2 None) = Some true.
+Proof. repeat split; vm_compute; reflexivity. Qed.
